@@ -176,7 +176,7 @@ def run_check(prop, streams, argv, level_text='', trusted_base=(), assumptions=(
                 oc = st.oracle(c, io)
             except Exception:  # noqa
                 oc = 'oracle crashed: ' + traceback.format_exc()[-500:]
-            unmod = mo is not None and 'UNMODELLED' in mo
+            unmod = (mo is not None and 'UNMODELLED' in mo) or io.startswith('SKIP')
             if unmod:
                 n_unmod += 1
             bucket = (io or '')[:1] if not io.startswith(('E:', 'B:')) else io.split(' ')[0][:24]
@@ -208,7 +208,7 @@ def run_check(prop, streams, argv, level_text='', trusted_base=(), assumptions=(
                         o = st.oracle(x, a)
                     except Exception:  # noqa
                         o = None
-                    d = b is not None and 'UNMODELLED' not in b and a != b
+                    d = b is not None and 'UNMODELLED' not in b and a != b and not a.startswith('SKIP')
                     k2 = st.classify(x, a, b)
                     out.append((o is not None or d) and not (k2 and k2 in known_open))
                 return out
